@@ -46,6 +46,9 @@ type ProcessorNode struct {
 	swapMu  sync.Mutex
 	pending *pendingSwap
 	wakeCh  chan struct{}
+	// exited is set when Run returns: from then on no record boundary will ever
+	// come, so a reconfigure request is refused instead of being staged.
+	exited bool
 }
 
 // pendingSwap is a staged live-reconfigure request. done carries the outcome back
@@ -72,6 +75,11 @@ func (n *ProcessorNode) ID() string {
 }
 
 func (n *ProcessorNode) Run(ctx context.Context) error {
+	// A reconfigure staged after the last record boundary can never be applied
+	// once this loop is gone: answer it, otherwise its caller waits forever
+	// (its context may never be cancelled), and refuse later requests.
+	defer n.failPendingSwap()
+
 	_, cleanup, err := n.base.Trigger(ctx, n.logger, nil)
 	if err != nil {
 		return err
@@ -258,6 +266,10 @@ func (n *ProcessorNode) Reconfigure(ctx context.Context, newProcessor Processor)
 	wake := n.wake()
 
 	n.swapMu.Lock()
+	if n.exited {
+		n.swapMu.Unlock()
+		return cerrors.New("processor node is not running, can't reconfigure it live")
+	}
 	if n.pending != nil {
 		n.swapMu.Unlock()
 		return cerrors.New("a processor reconfigure is already in progress")
@@ -288,6 +300,21 @@ func (n *ProcessorNode) Reconfigure(ctx context.Context, newProcessor Processor)
 		n.swapMu.Unlock()
 		return ctx.Err()
 	}
+}
+
+// failPendingSwap marks the node as exited and reports a staged, not yet applied
+// Reconfigure request as failed. Called when Run returns.
+func (n *ProcessorNode) failPendingSwap() {
+	n.swapMu.Lock()
+	p := n.pending
+	n.pending = nil
+	n.exited = true
+	n.swapMu.Unlock()
+	if p == nil {
+		return
+	}
+	// the new processor was never opened and never will be
+	p.done <- cerrors.New("processor node stopped before the live reconfigure could be applied, the processor was not reconfigured")
 }
 
 // applyPendingSwap applies a staged Reconfigure request, if any. It MUST be
